@@ -216,6 +216,27 @@ def run_case(ctx, case):
             if f in inp and float(inp[f]) != float(want):
                 ctx.fail('value_not_used', dict(model=sec, field=f, used=float(inp[f]), supplied=want), sig=dict(field='model_input'))
             ctx.count('use_site:model_input')
+    # ---- a second system from the same file, without the options: only the file's values, nothing of the first system -----
+    if rc is not None and options and case.get('second_system', True):
+        try:
+            ssb = andes.System(config_path=rc, no_output=True)
+        except ValueError:
+            # a file value that is outside the declared alternatives (drawn on purpose for fields an option overrides)
+            ssb = None
+            ctx.count('outcome:second_system_rejects_file_value')
+        objsb = dict([('System', ssb)] + list(ssb.routines.items()) + list(ssb.models.items())) if ssb is not None else {}
+        for sec, fields in (cat.items() if ssb is not None else []):
+            if sec == '__kinds__':
+                continue
+            for f, (default, alt) in fields.items():
+                got = getattr(objsb[sec].config, f, None)
+                want = coerce(file_sections[sec][f]) if f in file_sections.get(sec, {}) else default
+                if not values_equal(got, want) and (sec, f) not in SKIP_FIELDS:
+                    ctx.fail('configuration_leaks_between_systems',
+                             dict(section=sec, field=f, in_effect=repr(got), file_or_default=repr(want),
+                                  first_system_options=[o for o in options if o.startswith(sec + '.')][:4]),
+                             sig=dict(section_kind=kind_of(sec)))
+        ctx.count('outcome:second_system_from_same_file')
     # ---- save -> load ------------------------------------------------------------------------------
     if case.get('save_roundtrip'):
         path = os.path.join(sandbox.scratch_dir('cfg'), 'saved-%d.rc' % os.getpid())
